@@ -48,7 +48,9 @@ def inject(w, n, pf, data):
 
 
 # --------------------------------------------------------------------------- stack originates RTS/CTS
-def h_orig_cmdt(ex, prop, L, holds=(0,), interval=None, windows='sym'):
+def h_orig_cmdt(ex, prop, L, holds=(0,), interval=None, windows='sym', rewind=None):
+    """rewind = [k, back]: before its k-th grant the reference responder discards the last `back` segments and
+    re-requests them (CTS whose next-segment field goes back: retransmission request)"""
     c03, c09 = prop == 'C03', prop == 'C09'
     tag = 'c03' if c03 else 'c09'
     wa = ex.fresh_int('win_stack', 1, 255) if windows == 'sym' else windows
@@ -76,6 +78,9 @@ def h_orig_cmdt(ex, prop, L, holds=(0,), interval=None, windows='sym'):
             w.after(ex.fresh_real('hold_gap', HOLD[0], HOLD[1]), send_cts, 'peer')
             return
         st['holds_left'] = None
+        if rewind is not None and k == rewind[0] and st['got'] >= rewind[1]:
+            st['got'] -= rewind[1]
+            remaining = nseg - st['got']
         grant = ex.fresh_int('grant%d' % k, 1, remaining)
         ex.assume(grant <= st['limit'])
         st.update(granted=grant, in_window=0, cleared=True)
@@ -317,6 +322,9 @@ def jobs(prop, tier):
             J('h_resp_bam', L=L)
     J('h_resp_cmdt', L=181, session=7)
     J('h_orig_cmdt', L=181, holds=[1, 0, 1])
+    # retransmission requests: the responder re-requests segments it already received
+    for rw in ([[1, 1], [1, 2], [2, 1]] if q else [[1, 1], [1, 2], [1, 3], [2, 1], [2, 2], [3, 1]]):
+        J('h_orig_cmdt', L=245 if q else 301, rewind=rw)
     if prop == 'C03':
         J('h_resp_bam', L=121, session=3)
     if prop == 'C09':
